@@ -125,7 +125,7 @@ OnlyCompleteOutput ==
 \* no temporary output file of a target that was built is left behind (a stale one somebody else left beside a
 \* target that was not touched is not redo's to remove)
 NoTmpLeft == (Quiet /\ hist # << >> /\ LastH.a = "cmd") =>
-                 \A t \in tmp : t \in TmpFiles /\ t \notin {LastH.ran[i] : i \in 1..Len(LastH.ran)}
+                 \A x \in tmp : x[1] \in TmpFiles /\ x[1] \notin {LastH.ran[i] : i \in 1..Len(LastH.ran)}
 
 (***************************************************************************)
 (* C05                                                                     *)
